@@ -57,7 +57,7 @@ def run(rep, tier, seed, model_ok=True, effort=1):
             fs.lines = [([rwgen.Seg("text", "download "), rwgen.Seg("occ", 0), rwgen.Seg("text", " "), rwgen.Seg("occ", 1), rwgen.Seg("text", " now")], "\n"),
                         ([rwgen.Seg("text", "end")], "\n")]
             spec["files"].append(fs)
-            scripted = ["update", "fetch-fails", "no-tag", "update", "vcs-rejects", "allow-dirty", "update"]
+            scripted = ["update", "fetch-fails", "no-tag", "update", "vcs-rejects", "allow-dirty", "update", "hook-writes", "update"]
         spec["cfg_prefix"] = ""
         if h == 3:
             # corpus history: a glob entry (*.toml) covers the config file itself with a pattern for another of its lines; the config's own
@@ -93,7 +93,7 @@ def run(rep, tier, seed, model_ok=True, effort=1):
             trace = []
             on_feature = False
             for s in range(steps):
-                op = scripted[s] if scripted else r.choice(["update", "update", "update", "update", "fail", "no-commit", "no-tag", "unrelated", "branch", "allow-dirty", "vcs-rejects"])
+                op = scripted[s] if scripted else r.choice(["update", "update", "update", "update", "fail", "no-commit", "no-tag", "unrelated", "branch", "allow-dirty", "vcs-rejects", "hook-writes"])
                 dirty_file = None
                 if op == "allow-dirty":
                     # an unrelated tracked file has unstaged edits; --allow-dirty must leave it out of the bump commit
@@ -177,6 +177,17 @@ def run(rep, tier, seed, model_ok=True, effort=1):
                     args.append("--no-tag-commit")
                 if op == "allow-dirty":
                     args.append("--allow-dirty")
+                hook_note = None
+                if op == "hook-writes" and spec["files"]:
+                    # a pre-commit hook that writes a release note into a configured file: what it wrote belongs to the bump commit
+                    hook_note = "\nreleased (step %d)\n" % s
+                    with open(prj.path(".note_hook.sh"), "w") as fh_:
+                        fh_.write("#!/bin/sh\nprintf '%s' >> '%s'\n" % (hook_note.replace("\n", "\\n"), prj.path(spec["files"][0].path)))
+                    os.chmod(prj.path(".note_hook.sh"), 0o755)
+                    prj.git("add", ".note_hook.sh"); prj.git("commit", "-q", "-m", "add hook script")
+                    tags0, n0, _ = git_state(prj)
+                    before = prj.snapshot()
+                    args += ["--pre-commit-hook", ".note_hook.sh"]
                 code, out, logs, exc = prj.run(impl, args)
                 old_a, new_a = rwcheck.announced(logs)
                 tags1, n1, head_tags = git_state(prj)
@@ -198,6 +209,14 @@ def run(rep, tier, seed, model_ok=True, effort=1):
                     rep.violation("an invalid invocation exited 0", input=inp, **{"class": "invalid-accepted"})
                     continue
                 # a successful update
+                if hook_note is not None:
+                    p0 = spec["files"][0].path
+                    status_now = prj.git("status", "--porcelain")
+                    if not after.get(p0, b"").endswith(hook_note.encode()) or p0 in status_now:
+                        rep.violation("what the pre-commit hook wrote into the configured file %s is not part of the bump commit (git status: %r)" % (p0, status_now.strip()),
+                                      input=inp, **{"class": "commit-files"})
+                    if after.get(p0, b"").endswith(hook_note.encode()):
+                        after[p0] = after[p0][:-len(hook_note.encode())]
                 known = [cur] + [t for t in tags0]
                 top = max(known, key=lambda t: version.parse_version(t))
                 if not (version.parse_version(new_a) > version.parse_version(top)):
@@ -244,6 +263,14 @@ def run(rep, tier, seed, model_ok=True, effort=1):
                         if newest != new_a:
                             rep.violation("the newest tag %r is not the announced version %r" % (newest, new_a), input=inp, **{"class": "newest-tag"})
                         trace.append("OUpdate")
+                if hook_note is not None:
+                    # take the note and the hook script out again (an ordinary later commit), so that the files are what the generator knows
+                    with open(prj.path(spec["files"][0].path), "wb") as fh_:
+                        fh_.write(after[spec["files"][0].path])
+                    os.unlink(prj.path(".note_hook.sh"))
+                    prj.git("add", "-A")
+                    prj.git("commit", "-q", "-m", "drop the note and the hook script")
+                    trace.append("OUnrelated")
                 cur = new_a
             traces.append(trace)
             rep.sample(dict(version_pattern=spec["vp"], start=spec["old"], ops=trace, final=cur))
